@@ -816,6 +816,8 @@ class World:
         once a query's handler is retired, the sockets created for it must be closed.  server.main's
         loop variable `h` may keep the one handler it looked at last, so the sockets of ONE retired
         handler are tolerated while the server runs; none once server.main has returned."""
+        if getattr(self, 'resource_flagged', False):
+            return
         self.cur_owner = None
         self.ready = set()                # (holds the handle of the socket that was made ready)
         def too_many(ling):
@@ -829,6 +831,7 @@ class World:
         self.hist['max-open-resolver-sockets'] = max(self.hist.get('max-open-resolver-sockets', 0), open_dns)
         if too_many(ling):
             qids = sorted({r.owner_meta[1] for r in ling if r.owner_meta})
+            self.resource_flagged = True
             self.violate('C10:resolver-socket-not-released-after-query-retired',
                          'every socket created for a retired (answered or expired) query is closed',
                          '%d sockets still open: %s (queries %s); %d resolver sockets open in all'
